@@ -1238,7 +1238,73 @@ pub fn run_case(n: u64, case: &Case, out: &mut Out) -> Result<(), String> {
     Ok(())
 }
 
+/// Developer probe (not part of the check): `vharness c08 --probe postcycle`.
+/// A ResourceRunner with a simulation coupling whose source cannot be read: `apply_post_cycle`
+/// fails, the thread ends in `Faulted` — does it go through the fault decision (safe state)?
+fn probe_post_cycle() -> i32 {
+    use trust_runtime::simulation::{SignalCouplingRule, SimulationConfig, SimulationController};
+    let case = Case {
+        tasks: vec![],
+        progs: vec![Prog { task: None, body: vec![Stmt::Set(2, 0x31)] }],
+        drivers: vec![DrvScript::default()],
+        retain: None,
+        pubtrap: false,
+        resize: Some((2, 17, 1)),
+        expired_at: vec![],
+        ops: vec![],
+        runloop: None,
+    };
+    let mut h = TestHarness::from_source(&render_source(&case)).expect("compile");
+    let control = h.runtime_mut().enable_debug();
+    let shared = Arc::new(Mutex::new(Shared::default()));
+    h.runtime_mut().add_io_driver(
+        "log0",
+        Box::new(LogDriver { idx: 0, script: DrvScript::default(), reads: 0, writes: 0, shared: shared.clone(), control: control.clone() }),
+    );
+    h.runtime_mut().io_mut().resize(2, 17, 1);
+    h.runtime_mut().set_fault_policy(FaultPolicy::SafeHalt);
+    h.runtime_mut().set_io_safe_state(IoSafeState { outputs: vec![(addr("%QB0"), Value::Byte(0xA5))] });
+    let sim = SimulationController::new(SimulationConfig {
+        enabled: true,
+        seed: 0,
+        time_scale: 1,
+        couplings: vec![SignalCouplingRule {
+            source: addr("%QX1.2.3"), // hierarchical output nobody has written: read fails
+            target: addr("%IX0.0"),
+            threshold: None,
+            delay: Duration::from_millis(0),
+            on_true: None,
+            on_false: None,
+        }],
+        disturbances: vec![],
+    });
+    let clock = GateClock::new(10 * MS, 5);
+    let runner = ResourceRunner::new(h.into_runtime(), clock.clone(), Duration::from_millis(10)).with_simulation(sim);
+    let mut handle = runner.spawn("probe").expect("spawn");
+    let started = std::time::Instant::now();
+    while handle.state() != ResourceState::Faulted && !clock.blocked() && started.elapsed() < std::time::Duration::from_secs(10) {
+        std::thread::sleep(std::time::Duration::from_millis(1));
+    }
+    handle.stop();
+    let _ = handle.join();
+    let mut sh = shared.lock().unwrap();
+    drain_events(&control, &mut sh);
+    println!(
+        "probe postcycle state={:?} err={} iterations={} ev={}",
+        handle.state(),
+        handle.last_error().as_ref().map(canon_err).unwrap_or_else(|| "-".into()),
+        clock.calls(),
+        if sh.log.is_empty() { "-".to_string() } else { sh.log.join(",") }
+    );
+    // policy safe_halt, safe state %QB0 := 0xA5: a delivered safe image starts with a5 and is
+    // followed by an F: event
+    0
+}
+
 pub fn run(args: &Args) -> i32 {
+    if args.extra.get("probe").map(String::as_str) == Some("postcycle") {
+        return probe_post_cycle();
+    }
     let mut out = Out::new();
     let corpus = corpus();
     for n in args.case_numbers() {
